@@ -11,6 +11,7 @@ EXPLANATION = (
     "insert_coin of a batch output, fee accumulators use commutative updates, and the other batch loops only perform keyed inserts. R3 ambient nondeterminism: Instant::now / elapsed "
     "flow only into logging and statistics; no RNG, thread-id or environment reads. R4 the transaction commitment is built from an ordered map / a sorted vector. "
     "R5 global state: the only statics are statistics counters (never read on a path into state) and the inflator table, a pure function of its index."
+    " R5 also requires the fill path of the inflator table to hand back the entry at the requested index (`inflator/result`: lookup and fill are separate critical sections)."
 )
 NOT_DECIDED = ["extensional equality with one-at-a-time application in every dependency-respecting order (an equality of commitments over all batches)",
                "iteration order of novasmt::Tree::iter (only used for commutative count increments)"]
